@@ -168,6 +168,19 @@ CHECKS = {
         note="hashlib/zlib define the digests; slice identity with the outer stream is claimed for plain substreams (Prefixed, FixedSized, "
              "NullTerminated), offsets under transforms are C08's business",
         design="§3 C14"),
+    "C04": dict(
+        technique="bounded-exhaustive differential execution of compiled vs interpreted constructs over typed terms x expression-parameterised hosts x interpreter-accepted inputs and values",
+        text="(A) every term of tiers T1-T4 (T5 thorough) that compile() accepts is run, compiled and interpreted, on every byte string "
+             "over a 6-symbol alphabet up to length L; on every input the interpreter accepts, the compiled parse value, consumed bytes, "
+             "the bytes built from the parsed value and sizeof must be identical. (B) a host struct with integer, string, enum-label, "
+             "bytes and list members, a member under test and dependent probes (a Computed copy and a trailing Bytes((a+b)&3)) is "
+             "instantiated for 22 parameter slots x the full expression grid (every ordered pair of the 11 arithmetic/bitwise operators in "
+             "both nestings, the 6 comparisons, unary inside binary, reflected constants, str/bytes/bool constants, len_/sum_/min_/max_/abs_, "
+             "_params, _, _root; about 550 integer, 120 boolean and 10 key expressions) and run on a,b in 0..3 x string/label/bytes "
+             "variants x tails. Hand-picked shapes cover falsy values, counts above 255, string switch keys, unions, FocusedSeq.",
+        note="the interpreter is the oracle; nothing is compared where it rejects; documented exclusions: _index/Index, hooks, discard, "
+             "_subcons, lambdas, exception paths, look-ahead over truncated data",
+        design="§3 C04"),
 }
 
 PENDING_REASON = "check not built yet in this round (see DESIGN.md §7 build order); it will be decided by the same bounded-exhaustive engine"
